@@ -151,3 +151,49 @@ theorem mergeAll_empty_view (m : Mach) (s o : Nat) (hs : s < m.sims.length) (ho 
   simp [view, hempty]
 
 end PyPhysim.C06M
+
+namespace PyPhysim.C06M
+
+theorem mem_dedupNat (l : List Nat) (a : Nat) : a ∈ dedupNat l ↔ a ∈ l := by
+  induction l with
+  | nil => simp [dedupNat]
+  | cons x xs ih =>
+    simp only [dedupNat]
+    split
+    · rename_i h
+      rw [ih]
+      constructor
+      · exact fun h' => List.mem_cons_of_mem _ h'
+      · intro h'
+        rcases List.mem_cons.mp h' with e | e
+        · subst e; exact (ih).mp h |> fun _ => (mem_dedupNat_aux xs a h ih)
+        · exact e
+    · simp [ih]
+where
+  mem_dedupNat_aux (xs : List Nat) (a : Nat) (h : a ∈ dedupNat xs) (ih : a ∈ dedupNat xs ↔ a ∈ xs) : a ∈ xs :=
+    ih.mp h
+
+theorem getElem?_posOf {a : Nat} {l : List Nat} (h : a ∈ l) : l[posOf a l]? = some a := by
+  induction l with
+  | nil => cases h
+  | cons x xs ih =>
+    simp only [posOf]
+    split
+    · rename_i e; simp [e]
+    · rename_i e
+      rcases List.mem_cons.mp h with e' | e'
+      · exact absurd e'.symm e
+      · simpa using ih e'
+
+theorem getElem?_filterMap_of_isSome {α β} (g : α → Option β) (l : List α) (h : ∀ a ∈ l, (g a).isSome)
+    (i : Nat) : (l.filterMap g)[i]? = (l[i]?).bind g := by
+  induction l generalizing i with
+  | nil => simp
+  | cons x xs ih =>
+    obtain ⟨y, hy⟩ := Option.isSome_iff_exists.mp (h x (by simp))
+    simp only [List.filterMap_cons, hy]
+    cases i with
+    | zero => simp [hy]
+    | succ i => simpa using ih (fun a ha => h a (by simp [ha])) i
+
+end PyPhysim.C06M
